@@ -419,7 +419,7 @@ func (g *gen) op() *Op {
 var intBoundary = []float64{-1, 0, 1, 127, 128, -128, -129, 255, 256, -2, 5, 32767, 32768, -32768, 65535, 65536,
 	2147483647, 2147483648, -2147483648, 4294967295, 4294967296, 200, -100}
 var floatBoundary = []float64{math.NaN(), math.Inf(1), math.Inf(-1), math.Copysign(0, -1), 0.5, 1.5, 2.5, -0.5, -1.5, 254.5, 255.5,
-	127.5, 128, -129, 300, -1, 2147483648, 4294967297, 9223372036854777856, -9223372036854777856, 1e21, 3.4028235677973366e38,
+	127.5, 128, -129, 300, -1, 0.1, 0, 16777217, 2147483648, 4294967297, 9223372036854777856, -9223372036854777856, 1e21, 3.4028235677973366e38,
 	1e-46, 65535.5, -128, 255}
 var bigBoundary = []string{"0", "-1", "1", "127", "128", "-128", "255", "256", "9223372036854775807", "-9223372036854775808",
 	"9223372036854775808", "18446744073709551615", "18446744073709551616", "-9223372036854775809", "-255"}
@@ -485,6 +485,30 @@ func (g *gen) pairScenario(pair int) []Op {
 	ops = append(ops, fill, Op{O: "settyped", V: 1, S: 0, A1: plain(r.Intn(dlen - n + 1))})
 	if r.Chance(60) {
 		ops = append(ops, Op{O: "ctorfrom", K: dk, S: 0})
+	}
+	// searches on the source view with the values just stored (BEFORE the element conversion: 0.1 is not in a
+	// Float32Array that was given 0.1, 256 is not in an Int8Array), the other zero, and NaN
+	for j := 0; j < 2 && n > 0; j++ {
+		x := fill.Src[r.Intn(n)]
+		if !x.Big {
+			f := f64FromBits(x.Z)
+			switch {
+			case f == 0 && r.Chance(60):
+				x.Z = bitsOf(math.Copysign(0, -1))
+				if math.Signbit(f) {
+					x.Z = bitsOf(0)
+				}
+			case r.Chance(15):
+				x.Z = bitsOf(math.Float64frombits(0x7ff8000000000000))
+			case sk == 7 && r.Chance(30): // the float32-rounded value IS there
+				x.Z = bitsOf(float64(float32(f)))
+			}
+		}
+		o := Op{O: []string{"includes", "indexof", "lastindexof"}[r.Intn(3)], V: 0, K: sk, Val: &VArg{Big: x.Big, Z: x.Z}}
+		if r.Chance(40) {
+			o.A1 = g.idx(n, 3, 0)
+		}
+		ops = append(ops, o)
 	}
 	return ops
 }
